@@ -45,6 +45,7 @@ class Ref:
         self.decl = {}
         self.tags = {}
         self.loaded = None      # class predicate of D16 only: flavors each stack shows to the command
+        self.extras = {}        # extra files (-L): (si, flavor, n, v) -> {path: content}
 
     # ---- what a reader sees ---------------------------------------------------------------------
     def listing(self):
@@ -108,6 +109,9 @@ class Ref:
     def _rmcache(self, c):
         pass
 
+    def _clearcache(self, c):
+        pass
+
     def _set_tag(self, t, key):
         si, n, v, f = key
         for s in range(NST):
@@ -151,8 +155,10 @@ class Ref:
         key = (target, n, v, f)
         old = self.decl.get(key) if self.sees(target, f) else None
         write = True
+        ext = {p: cid for p, cid in c.get("ext") or []}
         if old is not None and not force:
-            conflict = old[0] != d or (table == "default" and old[1] == "none")
+            have = self.extras.get((target, f, n, v))
+            conflict = old[0] != d or (table == "default" and old[1] == "none") or bool(have and have != ext)
             if conflict and not tag:
                 raise Refused()
             write = False
@@ -162,6 +168,8 @@ class Ref:
             self.decl[key] = (d, table)
         if tag:
             self._set_tag(tag, key)
+        if ext:
+            self.extras.setdefault((target, f, n, v), {}).update(ext)
 
     def _untag(self, f, t, n, v, stack, dry):
         if v is not None:
@@ -214,6 +222,11 @@ class Ref:
         k = self.find(n, v, f, stacks)
         if k is None:
             raise NotFound()
+        if c.get("setup") and not c.get("force"):
+            sv, sf, ss = c["setup"]     # a version that a shell has set up is not undeclared under its feet
+            # (an instance of flavor f knows the products of f and of its fallback flavor, no others)
+            if sf in fallbacks(f) and self.find(n, sv, sf, [ss]) is not None and ss == k[0] and sv == v:
+                raise Refused()
         if tag:
             self._untag(f, tag, n, v, k[0], dry)
         if dry:
@@ -231,7 +244,8 @@ class Ref:
         dd = tuple(d) if isinstance(d, (list, tuple)) else d
         if c.get("recursive") and self.decl[k][1] == "default" and dd not in self.dirs:
             raise TableMissing()                    # the dependencies are read from the table file: it is gone
-        self._undeclare({"flavor": f, "name": n, "version": v, "noaction": c.get("noaction")})
+        self._undeclare({"flavor": f, "name": n, "version": v, "noaction": c.get("noaction"),
+                         "setup": c.get("setup"), "force": c.get("force")})
         if not c.get("noaction"):
             d = tuple(d) if isinstance(d, (list, tuple)) else d
             if d not in self.dirs:
